@@ -126,9 +126,9 @@ func checkC18(c caseC18) (Outcome, error) {
 			if stripSGR(res.Out) != stripSGR(plainOut[name]) {
 				return out, fmt.Errorf("%s under theme %s differs from the unstyled output by more than SGR sequences\ntext: %s\nstyled:   %s\nunstyled: %s", name, theme, quoteShort(text), quoteShort(res.Out), quoteShort(plainOut[name]))
 			}
-			if c18Tables[name] && res.Out != "" && !hasESC {
+			if c18Tables[name] && strings.TrimSpace(res.Out) != "" && !hasESC {
 				// all rows of the table have the same number of visible characters
-				lines := strings.Split(strings.TrimSuffix(stripSGR(res.Out), "\n"), "\n")
+				lines := strings.Split(strings.Trim(stripSGR(res.Out), "\n"), "\n") // blank framing lines are not rows
 				if c.Flags&64 != 0 {
 					// warnings follow the table: only the table part is measured
 					for i, l := range lines {
